@@ -1,4 +1,5 @@
 import UncModel.AddChar
+import UncModel.Punct
 /-!
 # L3b: `output_text()` of `src/output.cpp` — the main loop over the chunk list
 
@@ -135,6 +136,13 @@ def renderNlCont (c : OutCfg) (o : RenderOpts) (cs : Array Chunk) (i : Nat) (s :
   let s := rAdd c s 10 false
   { s with o := { s.o with didNl := true, col := 1 } }
 
+/-- the column of a chunk that is not the first on its line: `reindent_line(pc, cpd.column)` when it would overlap what was written, and
+    (since fix "two words are never written back to back") one column further when the last character written and the first
+    character of the chunk are both word characters -/
+def sameLineCol (s : OutSt) (pc : Chunk) : Nat :=
+  let col := if pc.col < s.col then s.col else pc.col
+  if col = s.col ∧ pc.txt.length > 0 ∧ s.last > 0 ∧ isKw2 s.last = true ∧ isKw1 (pc.txt.head?.getD 0) = true then s.col + 1 else col
+
 /-- the general branch (visible non-comment chunk); `prevCol`/`prevLen` = column and length of the
     previous chunk in the list as emitted -/
 def renderText (c : OutCfg) (o : RenderOpts) (s : RSt) (pc : Chunk) (prevCol prevLen : Nat) : RSt × Nat :=
@@ -153,8 +161,8 @@ def renderText (c : OutCfg) (o : RenderOpts) (s : RSt) (pc : Chunk) (prevCol pre
     let s := if pc.ty = "PP_DEFINE" ∧ o.forceTabAfterDefine then rAdd c s 9 false else s
     ({ s with o := { s.o with didNl := pc.isNewline, trail := false } }, pc.col)
   else
-    -- reindent_line(pc, cpd.column): the chunk itself is moved to cpd.column
-    let col := if pc.col < s.o.col then s.o.col else pc.col
+    -- reindent_line(pc, cpd.column): the chunk itself is moved to cpd.column (+1 between two words)
+    let col := sameLineCol s.o pc
     let allowTabs := (o.alignWithTabs ∧ pc.wasAligned ∧ prevCol + prevLen + 1 ≠ col)
                      ∨ (o.alignKeepTabs ∧ pc.afterTab)
     let s := rToCol c s col allowTabs
